@@ -586,6 +586,51 @@ def open_witness_cases():
     return cases
 
 
+def eqwrap_cases():
+    """values that are equal only through the cast == applies to its RIGHT operand (or only in one order)"""
+    rng_of = {'i': (-2 ** 31, 2 ** 31), 'u': (0, 2 ** 32), 'I': (-2 ** 63, 2 ** 63), 'U': (0, 2 ** 64)}
+    bases = [0, 1, 5, -1, -5, 2147483647, -2147483648, 2147483648, 4294967295, 4294967291, 4294967296, 4294967301,
+             -4294967291, -4294967296, 9223372036854775807, -9223372036854775808, 9223372036854775808, 18446744073709551615,
+             18446744073709551611, 9007199254740993, -9007199254740993]
+    def variants(z):
+        out = set()
+        for k in (0, 1, -1, 2):
+            for m in (2 ** 32, 2 ** 64, 2 ** 31, 2 ** 63):
+                out.add(z + k * m)
+        return out
+    cases = []
+    seen = set()
+    for z in bases:
+        toks = []
+        for v in sorted(variants(z)):
+            for t, (lo, hi) in rng_of.items():
+                if lo <= v < hi:
+                    toks.append('%s%d' % (t, v))
+        # groups of four different tokens; neighbours and tokens 2, 5, 9 places apart (other type / other multiple) meet
+        n = len(toks)
+        for off in (2, 5, 9):
+            for i in range(0, n, 2):
+                g = tuple(sorted({toks[i], toks[(i + off) % n], toks[(i + 1) % n], toks[(i + 1 + off) % n]}))
+                if len(g) < 2 or g in seen:
+                    continue
+                seen.add(g)
+                cases.append(['@%d' % len(g)] + ['sets %d - %s' % (j, x) for j, x in enumerate(g)])
+    # bool / double / string against integers that are non-zero only above bit 31, or equal only after rounding
+    extra = [('b1', 'I4294967296', 'U9223372036854775808', 'i0'), ('b0', 'I4294967296', 'u0', 'U18446744073709551615'),
+             (dbl(1, 53), 'I9007199254740993', 'U9007199254740993', 'I9007199254740992'),
+             (dbl(1, 63), 'U9223372036854775808', 'I9223372036854775807', 'U9223372036854775809'),
+             (dbl(1, 64), 'U18446744073709551615', 'I-1', 'i-1'), (dbl(-1, 31), 'i-2147483648', 'u2147483648', 'I-2147483648'),
+             (dbl(3, -1), 'i1', 'u1', 'b1'), (dbl(-3, -1), 'i-1', 'I-1', 'U18446744073709551615')]
+    for g in extra:
+        cases.append(['@4'] + ['sets %d - %s' % (j, x) for j, x in enumerate(g)])
+    strs = ['4294967301', '-1', '18446744073709551615', '-4294967291', '9223372036854775808', '5', '1.0', '4294967296.5', ' 5', '05']
+    for st in strs:
+        for g in (('i5', 'I4294967301', 'u5'), ('i-1', 'U18446744073709551615', 'u4294967295'), ('I-1', 'u1', 'b1'),
+                  (dbl(1, 32), 'I9223372036854775807', 'i2147483647')):
+            cases.append(['@4', 'setstr 0 - %s' % hx(st)] + ['sets %d - %s' % (j + 1, x) for j, x in enumerate(g)])
+    return cases
+
+
 class C07(Check):
     id = 'C07'
     comp = 'Variant'
@@ -601,8 +646,9 @@ class C07(Check):
                   'operation every variable reports (getType, ==, deep dump) exactly what VariantSpec says, what was assigned (scalar, '
                   'string, container, or a Variant/String/container taken by reference from any node of any variable, including the '
                   'assigned Variant itself) is read back, an operation on x changes no other variable, a copy compares equal to its '
-                  'source; laws of the Spec\'s coercions (in-range conversions preserve the value, C wrap-around, int<->double exact, '
-                  'decimal strings parse back). The model is tied to the code by running the extracted model, the extracted spec and the '
+                  'source; the accessors\' switch(data->type) with its C casts and operator== with its choice of the converted operand, '
+                  'transcribed in the model independently of the Spec, compute the Spec\'s coercions; laws of these coercions (in-range '
+                  'conversions preserve the value, C wrap-around, int<->double exact, decimal strings parse back). The model is tied to the code by running the extracted model, the extracted spec and the '
                   'ASan/UBSan/LSan build of the working tree on the same histories; observations, the == matrix, all coercions and the '
                   'canonical heap shape (sharing structure and every reference count) are compared after every op.')
     level_note = ('Trusted: Coq kernel, VariantSpec.v (value model and reference coercions), extraction + OCaml driver, harness, generators. '
@@ -610,11 +656,14 @@ class C07(Check):
                   'the stream dblspecial with a hand-written oracle (root-level scalar histories: set/construct/assign/swap/copy, every '
                   'coercion, ==), not by a theorem; the sign of a zero returned by toDouble is not observed; float->integer casts that are '
                   'undefined in C++ are not observed. '
-                  'Validated by the correspondence run only: (a) the whole coercion clause as far as the code is concerned - the model\'s '
-                  'observers m_type/m_to_*/meq are the Spec\'s own functions applied to what switch(data->type) reads, so '
-                  'accessors_report_value and the scalar half of equality_is_spec_equality say only that nothing but the tag, the inline '
-                  'scalar or the String payload is read; that the Spec\'s functions equal the C++ casts, glibc strtol/strtoul/strtod/%f, '
-                  'int64->double rounding and String::toBool is checked by running every alternative against every other; (b) that an '
+                  'Validated by the correspondence run only: (a) that the reference functions shared by Model and Spec - glibc '
+                  'strtol/strtoul/strtod, printf %d/%u/%lld/%llu/%f, int64->double rounding, String::toBool - are what libc and String do '
+                  '(every alternative is run against every other; stream eqwrap for values that differ by multiples of 2^32/2^64). The '
+                  'switch(data->type) of every accessor and of operator==, with its C casts and the choice of the converted operand, IS '
+                  'modelled separately (VariantModel m_tag/u_*/c_int/c_dbl_int/m_to_*/meq, printed by the model driver) and proved equal '
+                  'to the Spec\'s coercions (accessors_report_value, accessor_switches_compute_coercions, equality_is_spec_equality, '
+                  'equality_converts_right_operand, string_equality_decided_by_scalar_side); '
+                  '(b) that an '
                   'in-place write of an exclusively owned payload equals the model\'s retire-and-reallocate (the heap shape dump compares '
                   'sharing and counts, not addresses); (c) the converting constructors Variant(bool|...|String|List|Array|HashMap), which '
                   'the drivers map to the assignment of the same value to the root (ops csets/csetstr/csetnode). '
@@ -635,6 +684,7 @@ class C07(Check):
             'assign/copy/swap/clear, assign a String/container taken by reference from a node of any variable - mostly a descendant of '
             'the destination itself, mutable accessor + insert/remove/clear at a path, toString + append) plus the converting '
             'constructors; streams: every alternative against others for coercions and == (assignment operator or constructor); '
+            'groups of four integral/bool/double/string values congruent modulo 2^32 or 2^64 (eqwrap: both orders of every pair in the == matrix); '
             'infinities and -0 against each other and ordinary scalars (hand-written oracle); the copy-on-write case split (payload kind '
             'incl. containers holding an unshared container of their own kind x sharer x root/nested with inner/outer sharing x write '
             'operation incl. assignment from self / descendant / ancestor / other variable, accessor kind matching or not, followed by '
@@ -721,6 +771,11 @@ class C07(Check):
             cases.append(['@2', setop(a, 0, n % 2 == 1), setop(b, 1, n % 3 == 1)])
         out.append(Stream('coerce', cases, exhaustive=thorough,
                           note='every alternative (boundary scalars, %d strings) against %s' % (len(strs), 'every other' if thorough else '3 random others')))
+        # 1c. which operand == converts, and every integral conversion on values that differ only by a multiple of 2^32 / 2^64
+        #     (the case split of VariantModel.meq / m_to_*: the left operand's tag selects the case, the right operand is cast)
+        out.append(Stream('eqwrap', eqwrap_cases(), exhaustive=True,
+                          note='4 variables of different integral / bool / double / string alternatives holding values congruent modulo '
+                               '2^32 or 2^64 (or equal only after rounding to double): the == matrix shows both orders of every pair'))
         # 1a. infinities and negative zero (outside the Coq model; python oracle, see SpecialOracle)
         out.append(Stream('dblspecial', special_cases(rng, thorough), exhaustive=True,
                           note='dinf / d-inf / d-0 against each other and %d ordinary scalars: set or construct, assign, swap, copy, ==, '
